@@ -166,10 +166,12 @@ Print Assumptions C11_genome_walk.
 (* T11 END TO END: every modelled streamed pipeline (pileup, mask, pileup sum, histogram, (histogram,sum), values
    under windows, mean over axis 0 of those) — chunked interval streams -> group-by/join -> genome walk -> graph
    pull machine -> concatenate / reduce — returns the in-memory dense meaning of the concatenated data, for every
-   genome, every chunking into non-empty chunks, data in genome order.  [pipeline_guard] is True for pileup, mask,
-   pileup sum, histogram, (histogram,sum), values and — since the repair of mean_reduction (669f02f) — mean(axis=0);
-   the remaining reductions of the values need: sum(axis=0) windows on every chromosome with equal column counts,
-   np.sum a single chromosome — each refuted without its guard. *)
+   genome, every chunking into non-empty chunks, data in genome order.  [pipeline_guard] is True for EVERY pipeline of the
+   current code: pileup, mask, pileup sum, histogram, (histogram,sum), values, mean(axis=0) (since 669f02f) and — since the
+   repair of the reductions of np.sum (notes/C11.fix-3.diff) — np.sum, sum(axis=0), sum(axis=-1) of the values (stated
+   without any guard as C11_pipeline_sum_spec below).  Only the two HISTORY constructors PValuesSumPinned /
+   PValuesSum0Pinned, which keep reductions_map[np.sum] = operator.add as it was before fix-3, carry a guard (single
+   chromosome; windows on every chromosome with equal column counts) — each refuted without it. *)
 Theorem C11_pipeline_spec : forall p order sizes (csa csb : list (list (Z * iv))),
   NoDup order -> length order = length sizes -> (0 < length sizes)%nat ->
   csa <> [] -> csb <> [] -> Forall (fun c => c <> []) csa -> Forall (fun c => c <> []) csb ->
@@ -200,15 +202,38 @@ Theorem C11_pipeline_mean_refuted :
 Proof. exact pipeline_mean_refuted. Qed.
 Print Assumptions C11_pipeline_mean_refuted.
 
+(* history: the reductions of np.sum before fix-3 (operator.add on the per-chromosome results) *)
 Theorem C11_pipeline_sum_refuted :
   exists order sizes (csa csb : list (list (Z * iv))),
     NoDup order /\ length order = length sizes /\ ordered order (concat csa) /\ ordered order (concat csb)
-    /\ run_pipeline PValuesSum order sizes csa csb = Some (GL [4])
-    /\ spec_pipeline PValuesSum order sizes (concat csa) (concat csb) = GL [2; 2]
-    /\ run_pipeline PValuesSum0 [0; 1] [4; 4] [[(0, (0, 2)); (1, (1, 3))]] [[(0, (0, 2))]] = Some GErr
-    /\ spec_pipeline PValuesSum0 [0; 1] [4; 4] [(0, (0, 2)); (1, (1, 3))] [(0, (0, 2))] = GL [1; 1].
+    /\ run_pipeline PValuesSumPinned order sizes csa csb = Some (GL [4])
+    /\ spec_pipeline PValuesSumPinned order sizes (concat csa) (concat csb) = GL [2; 2]
+    /\ run_pipeline PValuesSum0Pinned [0; 1] [4; 4] [[(0, (0, 2)); (1, (1, 3))]] [[(0, (0, 2))]] = Some GErr
+    /\ spec_pipeline PValuesSum0Pinned [0; 1] [4; 4] [(0, (0, 2)); (1, (1, 3))] [(0, (0, 2))] = GL [1; 1].
 Proof. exact pipeline_sum_refuted. Qed.
 Print Assumptions C11_pipeline_sum_refuted.
+
+(* T11b the reductions of np.sum of the values under windows after fix-3 (axis=None: one sum per window, concatenated;
+   axis=0: column sums added column by column, a chromosome without windows is neutral; axis=-1: concatenated), for
+   every genome, every chunking, chromosomes without windows and windows of unequal lengths: NO guard *)
+Theorem C11_pipeline_sum_spec : forall p order sizes (csa csb : list (list (Z * iv))),
+  p = PValuesSum \/ p = PValuesSum0 \/ p = PValuesSum1 ->
+  NoDup order -> length order = length sizes -> (0 < length sizes)%nat ->
+  csa <> [] -> csb <> [] -> Forall (fun c => c <> []) csa -> Forall (fun c => c <> []) csb ->
+  ordered order (concat csa) -> ordered order (concat csb) ->
+  run_pipeline p order sizes csa csb = Some (spec_pipeline p order sizes (concat csa) (concat csb)).
+Proof. exact pipeline_sum_spec. Qed.
+Print Assumptions C11_pipeline_sum_spec.
+
+(* the reductions themselves: per-window sums of consecutive buffers are concatenated; column sums are added with the
+   missing columns of the shorter operand counting as empty; a buffer without rows is neutral *)
+Theorem C11_sum_reductions_chunked : forall rowss : list (list (list Z)), rowss <> [] ->
+  reduce1 red_total (map (fun rows => op_rowsums [GR rows]) rowss) = Some (GL (map sumZ (concat rowss)))
+  /\ reduce1 red_rows (map (fun rows => op_rowsums [GR rows]) rowss) = Some (GL (map sumZ (concat rowss)))
+  /\ (concat rowss <> [] ->
+      reduce1 red_cols (map (fun rows => op_colsums_fixed [GR rows]) rowss) = Some (GL (map fst (spec_cols (concat rowss))))).
+Proof. exact sum_reductions_chunked. Qed.
+Print Assumptions C11_sum_reductions_chunked.
 
 (* T12 link theorems: on every correspondence case, agreement with the model (model_ok) gives the property (spec_ok);
    the extra hypotheses are the case's well-formedness and those parts of spec_ok that compare two observations
@@ -344,7 +369,22 @@ Theorem C11_source_tie :
   /\
   (forall x y, red_hist (GL [x]) (GL [y]) = GL [gen_add_hist_count x y])
   /\
-  (forall x y, gen_sum_reduction = "operator.add"%string /\ red_add (GZ x) (GZ y) = GZ (x + y))
+  (forall (x y axis nrows : Z) (l1 l2 : list Z),
+  (gen_hist_reduction = "_add_histograms"%string
+   /\ gen_af_sum_func = "_buffer_sum"%string /\ gen_af_sum_red = "_sum_reduction(axis)"%string
+   /\ gen_af_sum_axis = "kwargs.get('axis', args[1] if len(args) > 1 else None)"%string)
+  /\ (gen_sumred_none = "_add_totals"%string /\ gen_sumred_axis0 = "_add_columns"%string
+      /\ gen_sumred_rows = "_concatenate_rows"%string /\ gen_sumred_axis0_cond axis = (axis =? 0) || (axis =? -2))
+  /\ (gen_at_scalar_cond 0 0 = true /\ red_total (GZ x) (GZ y) = GZ (gen_at_add x y)
+      /\ gen_at_scalar_cond 1 1 = false /\ gen_at_scalar_cond 0 1 = false /\ gen_at_scalar_cond 1 0 = false
+      /\ gen_at_else = "_concatenate_rows(a, b)"%string
+      /\ red_total (GL l1) (GL l2) = red_rows (GL l1) (GL l2))
+  /\ (gen_cr_first = "a"%string /\ gen_cr_second = "b"%string /\ red_rows (GL l1) (GL l2) = GL (l1 ++ l2))
+  /\ (gen_bs_empty_cond axis nrows = ((axis =? 0) || (axis =? -2)) && (nrows =? 0)
+      /\ op_colsums_fixed [GR []] = GZ gen_bs_empty_val
+      /\ red_cols (GZ gen_bs_empty_val) (GL l1) = GL l1 /\ red_cols (GL l1) (GZ gen_bs_empty_val) = GL l1
+      /\ red_cols (GL (x :: l1)) (GL (y :: l2)) = GL (gen_ac_add x y :: z_padadd l1 l2)
+      /\ red_cols (GL (x :: l1)) (GL []) = GL (x :: l1) /\ red_cols (GL []) (GL (y :: l2)) = GL (y :: l2)))
   /\
   (forall idx i : nat, gen_sn_assert (Z.of_nat idx - 1) (Z.of_nat i) && gen_sn_advance (Z.of_nat idx - 1) (Z.of_nat i) = m_node_pull idx i /\ gen_sn_assert (Z.of_nat idx - 1) (Z.of_nat i) && negb (gen_sn_advance (Z.of_nat idx - 1) (Z.of_nat i)) = m_node_cached idx i /\ gen_sn_next (Z.of_nat idx - 1) = Z.of_nat (S idx) - 1)
   /\
@@ -426,7 +466,7 @@ Example C11_nonvacuous_phase3 :
   stream_kmer_counts 1 [[[0; 1; 1]]; [[3]; [1; 2]]] = Some [1; 3; 1; 1]
   /\ stream_map spec_revcomp [[[0; 1; 2; 3]; [0]]; [[1; 1; 2; 3; 0]]] = [[[0; 1; 2; 3]; [3]]; [[3; 0; 1; 2; 2]]]
   /\ ordered [0; 1; 2] [(0, (1, 4)); (0, (2, 6)); (2, (0, 3))]
-  /\ pipeline_guard PValuesSum0 [0; 1] [6; 4] [(0, (1, 4)); (1, (0, 3))] [(0, (1, 3)); (1, (1, 3))]
+  /\ pipeline_guard PValuesSum0Pinned [0; 1] [6; 4] [(0, (1, 4)); (1, (0, 3))] [(0, (1, 3)); (1, (1, 3))]
   /\ run_pipeline PValuesMean0 [0; 1; 2] [6; 5; 4] [[(0, (1, 4))]; [(0, (2, 6)); (2, (0, 3))]] [[(0, (1, 3)); (2, (1, 3))]]
      = Some (GSN [(2, 2); (3, 2)]).
 Proof.
@@ -458,3 +498,23 @@ Example C11_nonvacuous_phase6 :
   /\ count_encoded_flat 3 2 [0; 1; 1; 0; 1; 1; 1; 0] = [3; 5]
   /\ m_nblocks 8 3 = 3.
 Proof. vm_compute. repeat split; reflexivity. Qed.
+
+(* Round 6 (fix-3): the genomes on which the old reductions failed (C11_pipeline_sum_refuted) now give the in-memory
+   values: per-window sums listed; column sums with a chromosome without windows (last / first) and with a longest
+   window that differs between chromosomes; the hypotheses of C11_pipeline_sum_spec hold for the first of them *)
+Example C11_nonvacuous_round6 :
+  run_pipeline PValuesSum [0; 1] [4; 4] [[(0, (0, 2)); (1, (1, 3))]] [[(0, (0, 2))]; [(1, (1, 3))]] = Some (GL [2; 2])
+  /\ run_pipeline PValuesSum1 [0; 1] [4; 4] [[(0, (0, 2)); (1, (1, 3))]] [[(0, (0, 2))]; [(1, (1, 3))]] = Some (GL [2; 2])
+  /\ run_pipeline PValuesSum0 [0; 1] [4; 4] [[(0, (0, 2)); (1, (1, 3))]] [[(0, (0, 2))]] = Some (GL [1; 1])
+  /\ run_pipeline PValuesSum0 [0; 1] [4; 4] [[(0, (0, 2)); (1, (1, 3))]] [[(1, (0, 3))]] = Some (GL [0; 1; 1])
+  /\ run_pipeline PValuesSum0 [0; 1] [4; 4] [[(0, (0, 2)); (1, (1, 3))]] [[(0, (0, 1))]; [(1, (1, 4))]] = Some (GL [2; 1; 0])
+  /\ reduce1 red_cols [op_colsums_fixed [GR []]; op_colsums_fixed [GR [[1; 2; 3]; [1]]]; op_colsums_fixed [GR [[5; 5]]]]
+     = Some (GL [7; 7; 3])
+  /\ (NoDup [0; 1] /\ ordered [0; 1] (concat [[(0, (0, 2)); (1, (1, 3))]]) /\ ordered [0; 1] (concat [[(0, (0, 2))]; [(1, (1, 3))]])).
+Proof.
+  split; [vm_compute; reflexivity|]. split; [vm_compute; reflexivity|]. split; [vm_compute; reflexivity|].
+  split; [vm_compute; reflexivity|]. split; [vm_compute; reflexivity|]. split; [vm_compute; reflexivity|].
+  split; [repeat constructor; simpl; intuition lia|].
+  split; exists [(0, (0, 2))], [(1, (1, 3))]; (repeat split; [repeat constructor|]);
+    exists [(1, (1, 3))], []; repeat split; repeat constructor.
+Qed.
